@@ -35,7 +35,7 @@ CENTRE2 = {"ext": [3, 5], "batch": 2, "chans": [2, 3], "kk": [2, 1], "fext": [3,
 def _dims(d):
     if d == 2:
         return {
-            "ext": [[4, 4], [3, 5], [1, 4]],
+            "ext": [[4, 4], [3, 5], [1, 4], [2, 5]],  # extents 1 and 2: smaller than the wrap reach of a dilated filter
             "batch": [1, 2],
             "chans": [[1, 1], [2, 3]],
             "kk": [[1, 1], [0, 0], [0, 1], [1, 0], [2, 1], [1, 2], [2, 0], [0, 2], [2, 2]],
